@@ -30,7 +30,7 @@ BOUNDS = {
     "quick": {"program_size": 2, "stacks": "14 probing-route stacks (<=2 handlers) + 6 tooled-route stacks"},
     "thorough": {"program_size": 3, "stacks": "all probing-route stacks of <=2 handlers over 8 handler kinds, curated triples, 12 tooled-route stacks"},
 }
-CHUNK = 20
+CHUNK = 6
 DECLINE = object()
 
 
@@ -339,7 +339,8 @@ def check_program(prog, tier, part, setname="gen"):
         for route, stack in (stacks(tier) if setname == "gen" else CTL_STACKS):
             if any(o == "ctx" for _, o in stack) and not w:
                 continue
-            for x in (0, 1, 2):
+            # single handlers on every input; stacks of several handlers on the odd and the even input
+            for x in ((0, 1, 2) if len(stack) == 1 or tier == "thorough" else (1, 2)):
                 for driver in drivers:
                     bad = check_case(prog, info, v, w, route, stack, x, driver, part)
                     if bad:
